@@ -3,13 +3,14 @@
   only; helper lemmas live in `Genshi/Lemmas/Xml*.lean`.
 
   OBLIGATIONS (checked against the axiom audit by the harness):
-    gen_tables_as_modelled
+    gen_tables_as_modelled extracted_codecs_ascii
+    encode_roundtrip_text encode_roundtrip_attr charref_roundtrip
+    attr_tab_lf_cr_not_recovered text_cr_not_recovered
 -/
-import Genshi.Model.XmlSer
-import Genshi.Model.XmlReader
+import Genshi.Lemmas.XmlRefs
 import Genshi.Model.XmlParser
 namespace Genshi.Props.C02
-open Genshi Genshi.Xml
+open Genshi Genshi.Xml Genshi.Escape Genshi.Xml.Reader
 
 /-- The tables read from the code are the ones the model was written against:
     the permanent `xml` binding, the filter chain of the XML serializer without
@@ -21,5 +22,57 @@ theorem gen_tables_as_modelled :
        ['N','a','m','e','s','p','a','c','e','F','l','a','t','t','e','n','e','r']] ∧
     Genshi.Gen.Xml.encodeProbe = charRef (Char.ofNat 0x20AC) := by
   refine ⟨by decide, by decide, by decide⟩
+
+/-- Every codec of the property (as extracted from the running interpreter)
+    represents all of ASCII, which is what the encoding theorems assume. -/
+theorem extracted_codecs_ascii :
+    ∀ e ∈ Genshi.Gen.Xml.encodings, AsciiRep (inRanges e.2) := by
+  intro e he c hc
+  simp only [Genshi.Gen.Xml.encodings, List.mem_cons, List.mem_nil_iff, or_false] at he
+  rcases he with rfl | rfl | rfl | rfl <;> simp [inRanges] <;> omega
+
+/-- **encode_roundtrip (text).**  For every string of XML characters and every
+    encoding (any set of representable characters that contains ASCII): escaping
+    as the serializer does for text, then `xmlcharrefreplace`, is read back by an
+    XML reader as the original string — unrepresentable characters come back as
+    the same scalar through their character reference. -/
+theorem encode_roundtrip_text (rep : Char → Bool) (hr : AsciiRep rep) (s : Str)
+    (hx : s.all isXmlChar = true) :
+    decodeText (encodeText rep (escapePy false s)) = some s := by
+  rw [escapePy_eq_spec]
+  exact decodeGo_encode_escape rep hr false false s hx (fun h => by cases h)
+
+/-- **encode_roundtrip (attribute values)**, outside TAB/LF/CR (which XML
+    normalises to a space and the serializer does not write as references). -/
+theorem encode_roundtrip_attr (rep : Char → Bool) (hr : AsciiRep rep) (s : Str)
+    (hx : s.all isXmlChar = true) (hws : ∀ c ∈ s, c ≠ '\t' ∧ c ≠ '\n' ∧ c ≠ '\r') :
+    decodeAttr (encodeText rep (escapePy true s)) = some s := by
+  rw [escapePy_eq_spec]
+  exact decodeGo_encode_escape rep hr true true s hx (fun _ => hws)
+
+/-- A character reference is read back as the same scalar, in both modes. -/
+theorem charref_roundtrip (attr : Bool) (c : Char) (hx : isXmlChar c = true) (rest : Str) :
+    decodeGo attr none (charRef c ++ rest) = (decodeGo attr none rest).map (c :: ·) :=
+  decodeGo_charRef attr c hx rest
+
+example : decodeText (encodeText (fun c => c.toNat < 128) (escapePy false ['a', '<', 'é', '&', '😀'])) =
+    some ['a', '<', 'é', '&', '😀'] :=
+  encode_roundtrip_text _ (fun _ h => by simpa using h) _ (by decide)
+
+example : encodeText (fun c => c.toNat < 128) (escapePy false ['<', 'é']) =
+    ['&', 'l', 't', ';', '&', '#', '2', '3', '3', ';'] := by decide
+
+/-- Domain exclusion, with witness: TAB / LF / CR in an attribute value are
+    written literally and an XML reader turns them into a space. -/
+theorem attr_tab_lf_cr_not_recovered :
+    decodeAttr (escapePy true ['a', '\t', 'b']) = some ['a', ' ', 'b'] ∧
+    decodeAttr (escapePy true ['\n']) = some [' '] ∧
+    decodeAttr (escapePy true ['\r']) = some [' '] := by
+  refine ⟨by decide, by decide, by decide⟩
+
+/-- Domain exclusion, with witness: CR in text is written literally and an XML
+    reader reports it as LF. -/
+theorem text_cr_not_recovered :
+    (normEol (escapePy false ['a', '\r', 'b'])) = ['a', '\n', 'b'] := by decide
 
 end Genshi.Props.C02
